@@ -13,11 +13,12 @@ CONSTANTS EFamily, EMaxW \* which programs: family and weight bound of Progs0
 (* the transition system: execute, pull ... pull, destroy                  *)
 
 VARIABLES prog,      \* the program (AST)
+          simp,      \* compiled with (default) or without tree::simplify
           q,         \* the compiled query: [ops, root]
           mach,      \* [sc, bad, hard, err, fuel]
           out,       \* results pulled so far
           phase      \* "run" | "done" | "destroyed"
-vars == <<prog, q, mach, out, phase>>
+vars == <<prog, simp, q, mach, out, phase>>
 
 \* every legal body of the family, behind a two-stack stream and behind a single stack
 EngineBodies == {p \in AllPS(EFamily, EMaxW) : BodyOKF(EFamily, p)}
@@ -28,8 +29,9 @@ Programs == {q0 \in {Cat(StreamSrc(Max(1, Eff(p).need)), Cat(Prefix(EFamily), p)
 
 Init ==
     /\ prog \in Programs
-    /\ q = BuildQuery(prog)
-    /\ mach = FreshMach(BuildQuery(prog))
+    /\ simp \in BOOLEAN
+    /\ q = (IF simp THEN BuildQuery(prog) ELSE BuildQueryNoSimp(prog))
+    /\ mach = FreshMach(IF simp THEN BuildQuery(prog) ELSE BuildQueryNoSimp(prog))
     /\ out = <<>>
     /\ phase = "run"
 
@@ -39,14 +41,14 @@ Pull ==
        /\ mach' = x.m
        /\ IF IsNull(x) THEN out' = out /\ phase' = "done"
           ELSE out' = Append(out, Stk(x)) /\ phase' = "run"
-    /\ UNCHANGED <<prog, q>>
+    /\ UNCHANGED <<prog, simp, q>>
 
 \* zw_result_destroy: at any time, also half-way (abandonment)
 Destroy ==
     /\ phase \in {"run", "done"}
     /\ mach' = Des(q.ops, q.root, mach)
     /\ phase' = "destroyed"
-    /\ UNCHANGED <<prog, q, out>>
+    /\ UNCHANGED <<prog, simp, q, out>>
 
 Next == Pull \/ Destroy
 Spec == Init /\ [][Next]_vars
@@ -72,6 +74,10 @@ DiagWithin == (Comparable /\ phase = "done") => (Meaning.lo <= mach.err /\ mach.
 OrderWhereFixed ==
     (Comparable /\ phase = "done" /\ prog.k = "cat" /\ Single(prog.a) /\ OrderFixed(prog.b))
         => NormOut(out) = NormOut(Meaning.out)
+\* C03: what the meaning layer calls well-formed compiles (no bind/read exception in build.cc)
+Compiles == ~q.err
+\* C15: tree::simplify reaches a fixed point free of the patterns it removes
+Simplified == Simple(Simplify(TreeOf(prog))) /\ Simplify(Simplify(TreeOf(prog))) = Simplify(TreeOf(prog))
 \* C13: state lifecycle
 Lifecycle == ~mach.bad
 AllDeadAfterDestroy ==
